@@ -23,10 +23,12 @@ import (
 	"context"
 	"encoding/json"
 	"fmt"
+	"io"
 	"io/ioutil"
 	"os"
 	"os/exec"
 	"path/filepath"
+	"runtime/debug"
 	"sort"
 	"strconv"
 	"strings"
@@ -35,8 +37,11 @@ import (
 	"time"
 
 	"github.com/logrange/logrange/api"
+	"github.com/logrange/logrange/pkg/model"
 	"github.com/logrange/logrange/pkg/model/tag"
 	"github.com/logrange/logrange/pkg/pipe"
+	"github.com/logrange/logrange/pkg/utils/verifhook"
+	"github.com/logrange/range/pkg/records"
 	"github.com/logrange/range/pkg/records/journal"
 	"verifharness/internal/lrsrv"
 	"verifharness/internal/vh"
@@ -94,15 +99,15 @@ type chunkL struct {
 }
 
 type part struct {
-	lastWrite int // opSeq of the last acknowledged write
-	tags   string // canonical tag line
-	src    string // real journal id
-	dense  string // model journal id
-	events []ev   // acknowledged + flushed events, in order (for pipe partitions: what was read back at the last sync)
-	chunks []chunkL
-	dest   bool
-	lastTs int64
-	seq    int
+	lastWrite int    // opSeq of the last acknowledged write
+	tags      string // canonical tag line
+	src       string // real journal id
+	dense     string // model journal id
+	events    []ev   // acknowledged + flushed events, in order (for pipe partitions: what was read back at the last sync)
+	chunks    []chunkL
+	dest      bool
+	lastTs    int64
+	seq       int
 }
 
 type sim struct {
@@ -131,8 +136,8 @@ type sim struct {
 	// finding F47; cindex.init now forgets such roots, so the comparison with the model is strict again)
 	treeDamaged bool
 	crashMode   bool // the running server was started on a crash image
-	dead       bool // the server refused to start / infrastructure problem: stop the case
-	sect       *vh.Section
+	dead        bool // the server refused to start / infrastructure problem: stop the case
+	sect        *vh.Section
 }
 
 func newSim(sec string, sect *vh.Section, in interface{}, chunkSize int) *sim {
@@ -1774,9 +1779,12 @@ func genCrash(rng *vh.Rng, i int) scase {
 		if rng.Bool() {
 			// make a stale snapshot likely: clean restart, then growth
 			c.Ops = append(c.Ops, hop{Kind: "write", Part: 0, N: 4}, hop{Kind: "restart", Quiesce: true}, hop{Kind: "write", Part: 0, N: 3})
+			if rng.Bool() {
+				cs.Then = append(cs.Then, "write-first") // first operation on the stale snapshot entry is a write
+			}
 		}
 	}
-	if (cs.Kind == "snap-missing" || cs.Kind == "snap-torn") && rng.Bool() {
+	if (cs.Kind == "snap-missing" || cs.Kind == "snap-torn") && rng.Bool() && len(cs.Then) == 0 {
 		cs.Then = append(cs.Then, "write-first")
 	}
 	for n := rng.Intn(3); n > 0; n-- {
@@ -1798,7 +1806,10 @@ func exhaustiveCuts() []scase {
 	cs = append(cs,
 		scase{ChunkSize: 4000, Ops: base, Crash: &crashSpec{Kind: "snap-missing", Then: []string{"write-first", "restart"}}},
 		scase{ChunkSize: 4000, Ops: base, Crash: &crashSpec{Kind: "snap-torn", Len: "h", Then: []string{"write-first", "restart"}}},
-		scase{ChunkSize: 700, Ops: base, Crash: &crashSpec{Kind: "snap-torn", Len: "m", Then: []string{"write-first", "crash"}}})
+		scase{ChunkSize: 700, Ops: base, Crash: &crashSpec{Kind: "snap-torn", Len: "m", Then: []string{"write-first", "crash"}}},
+		// … and for a STALE snapshot (the base history ends with a clean restart and growth): a plain image
+		scase{ChunkSize: 4000, Ops: base, Crash: &crashSpec{Kind: "image", Then: []string{"write-first", "restart"}}},
+		scase{ChunkSize: 700, Ops: base, Crash: &crashSpec{Kind: "image", Then: []string{"write-first", "crash"}}})
 	// the step lists come from the model at run time; a prefix class matters only where step k is a write
 	for k := 0; k <= 5; k++ {
 		for _, l := range lenClasses {
@@ -1987,6 +1998,159 @@ func replay(path string) {
 	res.Write(args.Out)
 }
 
+// ---------------------------------------------------------------------------------------------
+// race: a reader's syncChunks between a confirmed write and its index notification (regression of F06b)
+
+type sliceIt struct {
+	evs []model.LogEvent
+	i   int
+}
+
+func (s *sliceIt) Next(ctx context.Context) { s.i++ }
+func (s *sliceIt) Get(ctx context.Context) (model.LogEvent, tag.Line, error) {
+	if s.i >= len(s.evs) {
+		return model.LogEvent{}, "", io.EOF
+	}
+	return s.evs[s.i], "", nil
+}
+func (s *sliceIt) Release()                        {}
+func (s *sliceIt) SetBackward(bool)                {}
+func (s *sliceIt) CurrentPos() records.IteratorPos { return s.i }
+
+func sectionRace(rng *vh.Rng) {
+	sec := res.Section("race", "system-correspondence",
+		"schedule replay with the hooks partition.write.beforeCIndex / tmindex.syncChunks.betweenLocks: a write is parked between the journal write (confirmed by Sync) and its time-index notification — the chunk is ahead of its LIVE index entry — while RANGE queries run syncChunks; then the write is released. The write must not panic, the entry must not be dropped (no rebuild churn, no empty chunk list), every RANGE answer afterwards equals the filter; also after a clean restart. non-trivial = every round")
+	defer res.Done(sec)
+	if !verifhook.Enabled {
+		res.Note("race: hooks are not compiled in")
+		return
+	}
+	rounds := 6
+	if args.Thorough {
+		rounds = 30
+	}
+	for r := 0; r < rounds; r++ {
+		n0, n1 := rng.PickI([]int{1, 5, 40}), rng.PickI([]int{1, 3, 20})
+		in := map[string]interface{}{"first_batch": n0, "parked_batch": n1, "round": r}
+		fail := func(kind, what, impl, spec string) {
+			res.SpecFail(vh.SpecFailure{Section: "race", Kind: kind, Input: in, Impl: impl, Spec: spec, Finding: "F06b", What: what})
+		}
+		dir := lrsrv.NewDir()
+		srv, err := startRetry(dir, lrsrv.Opts{MaxChunkSize: 20000})
+		if err != nil {
+			os.RemoveAll(dir)
+			continue
+		}
+		tags := "r=1"
+		var all []ev
+		mk := func(n int) ([]*api.LogEvent, []model.LogEvent) {
+			var a []*api.LogEvent
+			var m []model.LogEvent
+			for i := 0; i < n; i++ {
+				e := ev{int64(1000 + len(all)), fmt.Sprintf("r-%d", len(all))}
+				all = append(all, e)
+				a = append(a, &api.LogEvent{Timestamp: e.Ts, Message: e.Msg})
+				m = append(m, model.LogEvent{Timestamp: e.Ts, Msg: records.Record(e.Msg)})
+			}
+			return a, m
+		}
+		a0, _ := mk(n0)
+		var wr api.WriteResult
+		srv.Client.Write(context.Background(), tags, "", a0, &wr)
+		srv.FlushWait()
+		s := &sim{srv: srv, sec: "race", sect: sec}
+		rq := func(lo, hi int64) ([]ev, []ev) {
+			got, _ := s.query(fmt.Sprintf("select from {%s} range [\"%d\":\"%d\"]", tags, lo, hi))
+			var want []ev
+			for _, e := range all {
+				if e.Ts >= lo && e.Ts <= hi {
+					want = append(want, e)
+				}
+			}
+			return got, want
+		}
+		rq(1000, 1000+int64(n0)) // the entry is live and compared once
+		src, _, err := srv.TIndex.GetJournal(tags)
+		if err != nil {
+			srv.Stop()
+			os.RemoveAll(dir)
+			continue
+		}
+		srv.TIndex.Release(src)
+		// park the next write between the journal write and the index notification
+		parked, release := make(chan struct{}), make(chan struct{})
+		var once sync.Once
+		verifhook.Set("partition.write.beforeCIndex", func() {
+			once.Do(func() { close(parked); <-release })
+		})
+		_, m1 := mk(n1)
+		done := make(chan string, 1)
+		go func() {
+			p := ""
+			func() {
+				defer func() {
+					if r := recover(); r != nil {
+						p = fmt.Sprint(r) + "\n" + string(debug.Stack())
+					}
+				}()
+				if err := srv.Parts.Write(context.Background(), tags, &sliceIt{evs: m1}, false); err != nil {
+					p = "error: " + err.Error()
+				}
+			}()
+			done <- p
+		}()
+		select {
+		case <-parked:
+		case <-time.After(5 * time.Second):
+			res.Note("race: the write did not reach the hook")
+		}
+		if j, err := srv.Journals.GetOrCreate(context.Background(), src); err == nil {
+			j.Sync() // the records are confirmed: Count() is ahead of the entry's Recs
+		}
+		for i := 0; i < 3; i++ {
+			rq(1000, 2000) // syncChunks with the chunk ahead of its live entry
+		}
+		verifhook.Set("partition.write.beforeCIndex", nil)
+		close(release)
+		p := <-done
+		res.Eval(sec, fmt.Sprint(in))
+		if p != "" {
+			if len(p) > 1500 {
+				p = p[:1500]
+			}
+			fail("server-panic", "a write whose index notification came after a reader's syncChunks panicked / failed (in the real server this goroutine is an RPC handler: the process dies)", p, "the write completes")
+		} else {
+			srv.FlushWait()
+			check := func(when string) {
+				deadline := time.Now().Add(3 * time.Second)
+				for _, r := range [][2]int64{{1000, 1000 + int64(n0) - 1}, {1000 + int64(n0), 3000}, {1000, 3000}, {1000 + int64(n0) - 1, 1000 + int64(n0)}} {
+					for {
+						got, want := rq(r[0], r[1])
+						if sameEvs(got, want) {
+							break
+						}
+						if time.Now().After(deadline) {
+							fail("hidden-event", fmt.Sprintf("RANGE [%d:%d] %s is not the filter", r[0], r[1], when), evsStr(got), evsStr(want))
+							break
+						}
+						time.Sleep(10 * time.Millisecond)
+					}
+				}
+			}
+			check("after the parked write was released")
+			srv.Stop()
+			if srv, err = startRetry(dir, lrsrv.Opts{MaxChunkSize: 20000}); err == nil {
+				s.srv = srv
+				check("after a clean restart")
+			}
+		}
+		if srv != nil {
+			srv.Stop()
+		}
+		os.RemoveAll(dir)
+	}
+}
+
 // raiseFdLimit: a stopped in-process server never closes its chunk files (the library's journal controller has no
 // Shutdown), so a run with thousands of restarts needs many descriptors
 func raiseFdLimit() {
@@ -2010,6 +2174,7 @@ func main() {
 	runCases("corpus", cs, corpusCases(), rng.Fork("corpus"), 6)
 	res.Done(cs)
 	sectionUnit(rng.Fork("unit"))
+	sectionRace(rng.Fork("race"))
 
 	ng, nc := 30, 44
 	if args.Thorough {
